@@ -345,8 +345,15 @@ func genC13(t *rapid.T) *C13Case {
 				}
 				if s.K == "cmd" {
 					for _, a := range s.Cmd.Args {
-						if a.Text != nil && rapid.IntRange(0, 3).Draw(t, "planttext") == 0 {
-							a.Text.Lit.Parts[0] = defs[0].name + " " + a.Text.Lit.Parts[0]
+						if a.Text != nil {
+							switch rapid.IntRange(0, 5).Draw(t, "planttext") {
+							case 0:
+								a.Text.Lit.Parts[0] = defs[0].name + " " + a.Text.Lit.Parts[0]
+							case 1:
+								// the whole literal is exactly the name of a constant
+								d := defs[rapid.IntRange(0, len(defs)-1).Draw(t, "which")]
+								a.Text.Lit = &StrLit{Parts: []string{d.name}, Type: a.Text.Lit.Type}
+							}
 						}
 						for _, st := range a.Moves {
 							if !st.Comma && st.PS == nil && rapid.IntRange(0, 3).Draw(t, "plantstep") == 0 {
